@@ -278,6 +278,23 @@ def traverseObject (data : List UInt8) : Option (List Member × Nat) :=
     | some r => some ([], data.length - r.length)
     | none => none
 
+/-- nesting depth of a document: the largest number of containers open at the same time (brackets inside strings do
+    not count). Independent of the scanner; used as an observation oracle for the stack height (C19). -/
+def nestDepth (l : List UInt8) : Nat :=
+  let rec go : List UInt8 → Bool → Bool → Nat → Nat → Nat
+    | [], _, _, _, m => m
+    | b :: t, inStr, esc, cur, m =>
+      if inStr then
+        if esc then go t true false cur m
+        else if b == 92 then go t true true cur m
+        else if b == 34 then go t false false cur m
+        else go t true false cur m
+      else if b == 34 then go t true false cur m
+      else if b == 91 || b == 123 then go t false false (cur + 1) (max m (cur + 1))
+      else if b == 93 || b == 125 then go t false false (cur - 1) m
+      else go t false false cur m
+  go l false false 0 0
+
 /-! ## value trees -/
 
 inductive JVal
